@@ -18,9 +18,9 @@ structure RInvN (n : NetSt) (att : List String) : Prop where
 
 theorem PInv.att_congr {tbl sv att att'} (h : PInv tbl sv att) (ha : ∀ x, x ∈ att' ↔ x ∈ att) :
     PInv tbl sv att' := by
-  obtain ⟨h1, h2, h3, h4, h5, h6, h7⟩ := h
+  obtain ⟨h1, h2, h3, h4, h5, h6, h7, h8⟩ := h
   exact ⟨h1, h2, fun nm ep a b c => h3 nm ep a b (by rw [← ha]; exact c),
-    fun nm hm => h4 nm ((ha nm).mp hm), fun nm hm => h5 nm ((ha nm).mp hm), h6, h7⟩
+    fun nm hm => h4 nm ((ha nm).mp hm), fun nm hm => h5 nm ((ha nm).mp hm), h6, h7, h8⟩
 
 theorem setS_setS {α : Type} (f : String → α) (k : String) (v w : α) : setS (setS f k v) k w = setS f k w := by
   funext x; simp only [setS]; split <;> rfl
@@ -353,8 +353,12 @@ theorem RInvN.bindT {n : NetSt} {att : List String} (h : RInvN n att) (name : St
     subst this
     exact ⟨h.udp, h.tcp, h.fwd, hcnt, h.cfg⟩
   | ok ep2 =>
-    obtain ⟨ht, hfree, haddr, _, _⟩ := simBind_ok _ _ _ _ _ _ _ hsb
+    obtain ⟨ht, hfree, haddr, hp1, hp0⟩ := simBind_ok _ _ _ _ _ _ _ hsb
     subst ht
+    have hport : 1024 ≤ ep2.port := by
+      by_cases h0 : ep1.port = 0
+      · have := (hp0 h0).1; have := h.port.1; omega
+      · obtain ⟨he, hge, _⟩ := hp1 h0; rw [he]; exact hge
     have hne : ep2.addr ≠ "0.0.0.0" := by
       rw [haddr]; intro hc; exact (h.cfg node).1 (hc ▸ hip)
     have hnd := Ep.not_default_of_addr ep2 hne
@@ -369,7 +373,7 @@ theorem RInvN.bindT {n : NetSt} {att : List String} (h : RInvN n att) (name : St
     have ht := tb_tf_set htv
     refine ⟨h.udp, ?_, ?_, hcnt, h.cfg⟩
     · rw [ht.1]
-      exact h.tcp.bind name s.bound ep2 (by rw [hsv.1, ho]) hb hfree hnd hne
+      exact h.tcp.bind name s.bound ep2 (by rw [hsv.1, ho]) hb hfree hnd hne hport
     · have : (({ n with reg := { n.reg with tcp := n.reg.tcp ++ [(ep2, name)], nextPort := np } } : NetSt).setTcp name
         { s with bound := ep2 }).tf = n.tf := by
         rw [ht.2]; dsimp only
@@ -395,8 +399,12 @@ theorem RInvN.bindU {n : NetSt} {att : List String} (h : RInvN n att) (name : St
     subst this
     exact ⟨h.udp, h.tcp, h.fwd, hcnt, h.cfg⟩
   | ok ep2 =>
-    obtain ⟨ht, hfree, haddr, _, _⟩ := simBind_ok _ _ _ _ _ _ _ hsb
+    obtain ⟨ht, hfree, haddr, hp1, hp0⟩ := simBind_ok _ _ _ _ _ _ _ hsb
     subst ht
+    have hport : 1024 ≤ ep2.port := by
+      by_cases h0 : ep1.port = 0
+      · have := (hp0 h0).1; have := h.port.1; omega
+      · obtain ⟨he, hge, _⟩ := hp1 h0; rw [he]; exact hge
     have hne : ep2.addr ≠ "0.0.0.0" := by
       rw [haddr]; intro hc; exact (h.cfg node).1 (hc ▸ hip)
     have hnd := Ep.not_default_of_addr ep2 hne
@@ -411,7 +419,7 @@ theorem RInvN.bindU {n : NetSt} {att : List String} (h : RInvN n att) (name : St
     have hu := ub_uf_set huv
     refine ⟨?_, h.tcp, ?_, hcnt, h.cfg⟩
     · rw [hu.1]
-      exact h.udp.bind name u.bound ep2 (by rw [hsv.1, ho]) hb hfree hnd hne
+      exact h.udp.bind name u.bound ep2 (by rw [hsv.1, ho]) hb hfree hnd hne hport
     · have : (({ n with reg := { n.reg with udp := n.reg.udp ++ [(ep2, name)], nextPort := np } } : NetSt).setUdp name
         { u with bound := ep2 }).uf = n.uf := by
         rw [hu.2]; dsimp only
